@@ -979,7 +979,9 @@ func (a *analysis) genInstr(cgn *cgnode, instr ssa.Instruction) {
 		a.genCall(cgn, instr)
 
 	case *ssa.ChangeType:
-		a.copy(a.valueNode(instr), a.valueNode(instr.X), 1)
+		// The operand and the result have identical underlying types, hence the same number of nodes: copy all
+		// of them (a struct or array value has more than one).
+		a.copy(a.valueNode(instr), a.valueNode(instr.X), a.sizeof(instr.Type()))
 
 	case *ssa.Convert:
 		a.genConv(instr, cgn)
